@@ -11,6 +11,12 @@ B  TLC (TlvModelVec) enumerates the same assignments and emits Encode / Announce
 C  seeded random classes (random kinds, type numbers up to 2^32, depth <= 3, IncludeBase/override) and all
    shipped model classes with random legal values and random edits; observations judged by TLC
    (TlvModelJudge).
+Life of an instance (TlvModelLife): the statement speaks of assignments of values, an application keeps ONE
+   object, sizes it, changes it in place (list.append, dict[k] = v, sub.field = x, own field assignment) and
+   sizes / encodes it again. A: LifeLaw. B: TLC enumerates a life per edit assignment (LifeOf) with the
+   AnnouncedLength / Size / Encode expected after every change; the instance that was sized and encoded for v
+   lives through it. C: random changes applied to the judged instance; TLC computes the value after each change
+   (Mutate) and judges what the instance announced and encoded then (LifeTags).
 """
 import importlib, inspect, json, os, struct
 
@@ -97,6 +103,7 @@ def observe(schema, cls, mv, edits, expect_tree=None, with_views=True):
     reported on its own)."""
     obs = {'alen': 0, 'wlen': 0, 'tree': [], 'proj': '', 'back': [], 'eq': False, 'edits': [], 'enc': '', 'views': []}
     inst = kit.to_python(schema, cls, mv)
+    obs['_inst'] = inst                     # the live instance (sized and encoded below): its life goes on in live_on()
     try:
         obs['alen'] = inst.encoded_length()
     except Exception as ex:  # noqa
@@ -137,6 +144,52 @@ def observe(schema, cls, mv, edits, expect_tree=None, with_views=True):
             o['got'] = classify_exc(ex)
         obs['edits'].append(o)
     return obs
+
+
+# ------------------------------------------------------------------ the life of one instance (TlvModelLife.tla)
+
+def live_on(schema, inst, steps):
+    """Continue the life of the instance that observe() has sized and encoded: apply each change IN PLACE (list /
+    dict methods, assignment in a sub-model, assignment of an own field), then ask the size (pure sizing call,
+    no markers: what an application filling a packet up to an MTU does) and / or encode, as the step says.
+    steps = [(m, sized, encoded)]; returns the life records judged by TlvModelJudge.LifeTags. An exception is
+    recorded in the step (enc / proj) and ends the life."""
+    out = []
+    for m, sized, encoded in steps:
+        x = {'m': m, 'sized': sized, 'encoded': encoded, 'alen': 0, 'wlen': 0, 'tree': [], 'enc': '', 'proj': ''}
+        out.append(x)
+        try:
+            kit.mutate_instance(schema, inst, m)
+        except Exception as ex:  # noqa
+            x.update(enc='change:' + type(ex).__name__, sized=False, encoded=False)
+            break
+        if sized:
+            try:
+                x['alen'] = inst.encoded_length()
+            except Exception as ex:  # noqa
+                x.update(enc='encoded_length:' + type(ex).__name__, sized=False, encoded=False)
+                break
+        if encoded:
+            try:
+                wire = bytes(inst.encode())
+            except Exception as ex:  # noqa
+                x.update(enc=type(ex).__name__, encoded=False)
+                break
+            x['wlen'] = len(wire)
+            try:
+                x['tree'] = kit.project(wire, schema)
+            except stl.TlvError as ex:
+                x['proj'] = ex.reason
+                break
+    return out
+
+
+def life_where(m):
+    """stable class of a change for signatures: the operation and whether it goes through a descriptor of the
+    top-level instance (own) or happens in an object the instance only refers to (in-place / nested)"""
+    if m['path']:
+        return '%s:nested' % m['op']
+    return '%s:%s' % (m['op'], 'own' if m['op'] == 'set' else 'in-place')
 
 
 # ------------------------------------------------------------------ other representations and views of the same value
@@ -327,10 +380,37 @@ def compare_vec(ctx, cname, schema, cls, vec, decl=None):
                 bad.append(('edit/%s/%s/%s/%s' % (e['kind'], e['expect'], o['got'], c),
                             'edit %s at path %s pos %d: spec %s, implementation %s' % (e['kind'], e['path'], e['pos'], e['expect'], o['got'])))
                 rep = dict(rep, edits=[e])
+    if not bad and vec.get('lives'):
+        bad += compare_life(schema, obs['_inst'], vec['lives'])
+        if bad:
+            rep = dict(rep, lives=vec['lives'])
     for tag, what in bad:
-        sig = 'C08/%s' % tag if tag.startswith(('edit/', 'view/')) else 'C08/%s/%s' % (tag, feat)
+        sig = 'C08/%s' % tag if tag.startswith(('edit/', 'view/', 'life/')) else 'C08/%s/%s' % (tag, feat)
         ctx.violation(sig, '%s: %s [value features: %s]' % (cname, what, feat), rep)
     return obs, bool(bad)
+
+
+def compare_life(schema, inst, lives):
+    """stage B: the instance that was sized and encoded for v lives on through the changes TLC enumerated
+    (TlvModelVec.LifeVec); after each one it is sized (pure sizing call) and encoded, and both are compared with
+    AnnouncedLength / Size / Encode of the value TLC computed for that moment. First failing step only."""
+    if not all(x['ok'] for x in lives):
+        raise tlc.MachineryError('TlvModelVec emitted an inadmissible life: %s' % json.dumps([x['m'] for x in lives])[:400])
+    steps = []
+    for x in lives:
+        if 'name-type-not-7' in features(schema, x['v']):
+            break                           # the known NameField(type_number) finding: any such value only hits it again
+        steps.append((x['m'], True, True))
+    for x, o in zip(lives, live_on(schema, inst, steps)):
+        m = x['m']
+        chk = ('encode-raises:%s' % o['enc'] if o['enc'] else 'announced-length' if o['alen'] != x['alen'] else
+               'wire-length' if o['wlen'] != x['size'] else 'wire-not-strict-tlv:%s' % o['proj'] if o['proj'] else
+               'tree' if o['tree'] != x['tree'] else '')
+        if chk:
+            return [('life/%s/%s' % (life_where(m), chk),
+                     'after the in-place change %s (path %s, field %d) of the live instance: %s - encoded_length()=%d, len(encode())=%d, '
+                     'spec AnnouncedLength=%d Size=%d' % (m['op'], m['path'], m['i'], chk, o['alen'], o['wlen'], x['alen'], x['size']))]
+    return []
 
 
 # ------------------------------------------------------------------ stage C generators
@@ -466,6 +546,70 @@ class Gen:
             return {'k': 'model', 'v': [self.value(x, 0 if r.random() < 0.7 else 1, enum) for x in d['sub']]}
         raise ValueError(k)
 
+    def mutation(self, schema, mv, enum=None):
+        """one random change of the current value mv in the vocabulary of TlvModelLife: half of them below the top
+        level when there is a sub-model to go to, container fields preferred (their in-place operations are the
+        changes no descriptor sees)"""
+        r = self.rng
+        nodes = []
+
+        def walk(path, s, v):
+            nodes.append((path, s, v))
+            for i, (d, fv) in enumerate(zip(s, v), 1):
+                if d['kind'] == 'model' and fv['k'] == 'model':
+                    walk(path + [[i, 0]], d['sub'], fv['v'])
+                elif d['kind'] == 'repeated' and d['elem'][0]['kind'] == 'model':
+                    for j, x in enumerate(fv['items'], 1):
+                        walk(path + [[i, j]], d['elem'][0]['sub'], x['v'])
+                elif d['kind'] == 'map' and d['elem'][1]['kind'] == 'model':
+                    for j, it in enumerate(fv['items'], 1):
+                        walk(path + [[i, j]], d['elem'][1]['sub'], it['val']['v'])
+        walk([], schema, mv)
+        deep = [n for n in nodes if n[0]]
+        path, s, v = r.choice(deep) if deep and r.random() < 0.5 else nodes[0]
+        boxes = [i for i, d in enumerate(s) if d['kind'] in ('repeated', 'map')]
+        i = r.choice(boxes) if boxes and r.random() < 0.6 else r.randrange(len(s))
+        d, fv = s[i], v[i]
+        if d['kind'] == 'repeated':
+            op = r.choice(['append', 'append', 'append', 'setitem', 'pop', 'clear', 'set'])
+            if op in ('setitem', 'pop') and not fv['items']:
+                op = 'append'
+            if op == 'set':
+                return kit.mut(path, i + 1, 'set', fv=self.value(d, 1, enum))
+            if op in ('pop', 'clear'):
+                return kit.mut(path, i + 1, op)
+            return kit.mut(path, i + 1, op, j=r.randint(1, len(fv['items'])) if op == 'setitem' else 0, fv=self.value(d['elem'][0], 1, enum))
+        if d['kind'] == 'map':
+            op = r.choice(['put', 'put', 'put', 'del', 'clear', 'set'])
+            if op == 'del' and not fv['items']:
+                op = 'put'
+            if op == 'set':
+                return kit.mut(path, i + 1, 'set', fv=self.value(d, 1, enum))
+            if op == 'clear':
+                return kit.mut(path, i + 1, op)
+            if op == 'del':
+                return kit.mut(path, i + 1, op, j=r.randint(1, len(fv['items'])))
+            key = r.choice(fv['items'])['key'] if fv['items'] and r.random() < 0.3 else self.value(d['elem'][0], 1)
+            return kit.mut(path, i + 1, 'put', key=key, fv=self.value(d['elem'][1], 1, enum))
+        return kit.mut(path, i + 1, 'set', fv=self.value(d, 0 if r.random() < 0.2 else 1, enum))
+
+    def life(self, cls, schema, mv, n, enum=None):
+        """n changes, each admissible on the value the previous ones leave (kept inside what sanitize() allows for the
+        shipped classes, and away from the known NameField(type_number) finding, which any value with such a name
+        would only hit again)"""
+        out, cur = [], mv
+        for _ in range(4 * n):
+            if len(out) == n:
+                break
+            m = self.mutation(schema, cur, enum)
+            nxt = kit.mutate_abstract(schema, cur, m)
+            if sanitize(cls, schema, nxt) != nxt or 'name-type-not-7' in features(schema, nxt):
+                continue
+            x = self.rng.random()
+            out.append((m, x < 0.85, x >= 0.85 or self.rng.random() < 0.7))
+            cur = nxt
+        return out
+
     def edits(self, schema, tree, n):
         """random edits of the projected tree: insert unknown (non-)critical, duplicate, transpose"""
         r = self.rng
@@ -557,14 +701,15 @@ def sanitize(cls, schema, mv):
     return out
 
 
-def record_for(gen, rid, cname, cls, schema, decl, nedits, enum=None):
+def record_for(gen, rid, cname, cls, schema, decl, nedits, enum=None, nlife=0):
     mv = sanitize(cls, schema, [gen.value(d, 0, enum) for d in schema])
     obs0 = observe(schema, cls, mv, [], with_views=False)
     edits = gen.edits(schema, obs0['tree'], nedits) if obs0['tree'] else []
     obs = observe(schema, cls, mv, edits)
+    life = live_on(schema, obs['_inst'], gen.life(cls, schema, mv, nlife, enum)) if nlife and not obs['enc'] and not obs['proj'] else []
     rec = {'id': rid, 'cname': cname, 'schema': schema, 'decl': decl or {'cname': '', 'entries': []}, 'v': mv,
            'alen': obs['alen'], 'wlen': obs['wlen'], 'tree': obs['tree'], 'back': obs['back'], 'eq': obs['eq'],
-           'enc': obs['enc'], 'proj': obs['proj'], 'dec': obs.get('dec', ''), 'views': obs['views'],
+           'enc': obs['enc'], 'proj': obs['proj'], 'dec': obs.get('dec', ''), 'views': obs['views'], 'life': life,
            'edits': [{k: o[k] for k in ('path', 'op', 'pos', 'src', 'elem', 'kind', 'got', 'gv')} for o in obs['edits']]}
     return rec
 
@@ -583,8 +728,35 @@ def judge(ctx, recs, name):
 BASE_ORDER = ['alen', 'enc', 'wlen', 'proj', 'tree', 'dec', 'back', 'eq', 'collect']
 
 
+LIFE_CHECK = {'alen': 'announced-length', 'wlen': 'wire-length', 'tree': 'tree'}
+
+
+def report_life(ctx, rec, ltags):
+    """first failing step of the life of the instance: a check failed by TLC (LifeTags) or an exception recorded
+    by the driver. Signature C08/life/<operation>:<own|in-place|nested>/<check>."""
+    fail = None
+    if ltags:
+        _, chk, j = ltags[0].split('/')
+        fail = (int(j), LIFE_CHECK[chk])
+    for j, x in enumerate(rec['life'], 1):
+        if (x['enc'] or x['proj']) and (fail is None or j <= fail[0]):
+            fail = (j, 'encode-raises:%s' % x['enc'] if x['enc'] else 'wire-not-strict-tlv:%s' % x['proj'])
+    if fail is None:
+        return
+    j, chk = fail
+    m = rec['life'][j - 1]['m']
+    x = rec['life'][j - 1]
+    ctx.violation('C08/life/%s/%s' % (life_where(m), chk),
+                  '%s: after %d change(s) of the live instance (last: %s at path %s field %d), %s: announced %d, encoded %d octets' % (
+                      rec['cname'], j, m['op'], m['path'], m['i'], chk, x['alen'], x['wlen']),
+                  {'kind': 'record', 'rec': dict(rec, edits=[], life=rec['life'][:j])})
+
+
 def report_c(ctx, recs, verdicts):
     by = {r['id']: r for r in recs}
+    for r in recs:                          # an exception in the life of an instance the judge has nothing to say about
+        if r['id'] not in verdicts and any(x['enc'] or x['proj'] for x in r['life']):
+            verdicts[r['id']] = []
     broken = []
     for rid, tags in verdicts.items():
         rec = by[rid]
@@ -593,7 +765,8 @@ def report_c(ctx, recs, verdicts):
             broken.append('judge: %s on record %s (%s)' % (tags, rid, rec['cname']))
             continue
         vtags = [t for t in tags if t.startswith('view/')]
-        tags = [t for t in tags if not t.startswith('view/')]
+        ltags = [t for t in tags if t.startswith('life/')]
+        tags = [t for t in tags if not t.startswith(('view/', 'life/'))]
         base = [t for t in tags if not t.startswith('edit/')]
         if rec['enc'] and 'alen' not in base:
             base.append('enc')
@@ -610,6 +783,7 @@ def report_c(ctx, recs, verdicts):
             ctx.violation('C08/%s/%s' % (name, feat), '%s: %s (failed checks: %s) [value features: %s]' % (
                 rec['cname'], name, ','.join(base), feat), {'kind': 'record', 'rec': dict(rec, edits=[])})
             continue
+        report_life(ctx, rec, ltags)
         for tag in vtags:
             ctx.violation('C08/%s' % tag, '%s: another representation / view of the same value disagrees: %s' % (rec['cname'], tag),
                           {'kind': 'record', 'rec': dict(rec, edits=[])})
@@ -663,8 +837,8 @@ def run(ctx):
 
 def _run(ctx):
     ctx.rule = ('A: TLC states of the scan machine over family x boundary assignments x edits. B: every TLC-enumerated '
-                '(class, assignment) executed on the real class (encode, strict projection, parse, each edit). '
-                'C: random/shipped (class, value, edits) records judged by TLC. non-trivial = distinct (class, value) '
+                '(class, assignment) executed on the real class (encode, strict projection, parse, each edit, each change of its life). '
+                'C: random/shipped (class, value, edits, life) records judged by TLC. non-trivial = distinct (class, value) '
                 'with a boundary-size value (number or length >= 253), nesting, repetition, a map, non-ASCII text, '
                 'or at least one edit')
     ctx.assumptions = ['strict_tlv reader/writer (cross-checked against TlvNum vectors at every run)',
@@ -715,7 +889,7 @@ def _run(ctx):
                              'depth': 0, 'wall_s': round(_t.time() - t0, 1)})
         with open(res[0][2] + '.num') as f:
             selfcheck_strict(json.load(f))
-        nv = ne = 0
+        nv = ne = nl = 0
         for fm in fam:
             decl, schema = fm['decl'], fm['schema']
             cls = kit.build_decl(decl)
@@ -728,7 +902,8 @@ def _run(ctx):
                 obs, bad = compare_vec(ctx, decl['cname'], schema, cls, vec, decl)
                 nv += 1
                 ne += len(vec['edits'])
-                ctx.evaluations += 1 + len(vec['edits'])
+                nl += len(vec.get('lives', []))
+                ctx.evaluations += 1 + len(vec['edits']) + len(vec.get('lives', []))
                 if vec['size'] >= 253 or vec['edits'] or any(d['kind'] in ('model', 'repeated', 'map') for d in schema) \
                         or features(schema, vec['v']) != 'plain':
                     ctx.nt(['B', decl['cname'], vec['v']])
@@ -736,11 +911,17 @@ def _run(ctx):
                     ctx.sample({'kind': 'B-vector', 'class': decl['cname'], 'v': vec['v'], 'alen': vec['alen'],
                                 'edits': len(vec['edits'])}, limit=3)
         ctx.traces += nv
-        ctx.note('B: %d classes, %d assignments, %d edits executed on the real classes' % (len(fam), nv, ne))
+        ctx.note('B: %d classes, %d assignments, %d edits, %d in-place changes of live instances executed on the real classes' % (len(fam), nv, ne, nl))
     if 'C' in ctx.stages:
         gen = Gen(ctx.rng)
         recs = []
         nrand, per, nship = ctx.pick((40, 10, 8), (500, 40, 150))
+        # the life of the instance (TlvModelLife): quick = every third record lives on for 3 changes, thorough = every
+        # second record for 4
+        every, nsteps = ctx.pick((3, 3), (2, 4))
+
+        def nlife():
+            return nsteps if len(recs) % every == 0 else 0
         for _ in range(nrand):
             decl = gen.decl()
             cls = kit.build_decl(decl)
@@ -750,7 +931,7 @@ def _run(ctx):
                               {'kind': 'collect', 'decl': decl})
                 continue
             for _ in range(per):
-                recs.append(record_for(gen, len(recs) + 1, 'random', cls, schema, decl, 3))
+                recs.append(record_for(gen, len(recs) + 1, 'random', cls, schema, decl, 3, nlife=nlife()))
         ships = shipped_classes()
         for cname, cls, schema in ships:
             if len({d['name'] for d in schema}) != len(schema):
@@ -759,8 +940,13 @@ def _run(ctx):
                 continue
             ev = enum_values(cls)
             for _ in range(nship):
-                recs.append(record_for(gen, len(recs) + 1, cname, cls, schema, None, 3, ev))
+                recs.append(record_for(gen, len(recs) + 1, cname, cls, schema, None, 3, ev, nlife=nlife()))
         ctx.note('C: %d random classes x %d values, %d shipped classes x %d values' % (nrand, per, len(ships), nship))
+        lsteps = [x for r in recs for x in r['life']]
+        ctx.note('C life: %d instances lived on for %d in-place changes (%s), each followed by sizing and / or encoding' % (
+            sum(1 for r in recs if r['life']), len(lsteps),
+            ', '.join('%s=%d' % (k, sum(1 for x in lsteps if life_where(x['m']) == k)) for k in sorted({life_where(x['m']) for x in lsteps}))))
+        ctx.evaluations += len(lsteps)
         verdicts = judge(ctx, recs, 'c08-judge-%s' % ctx.tier)
         report_c(ctx, recs, verdicts)
         ctx.traces += len(recs)
@@ -779,8 +965,11 @@ def replay(ctx, path):
         cls = kit.build_decl(obj['decl']) if obj.get('decl') else kit.build_schema_class(obj['schema'])
         obs = observe(obj['schema'], cls, obj['v'], obj.get('edits', []))
         print(json.dumps({k: obs[k] for k in ('alen', 'wlen', 'enc', 'proj', 'eq')}), [(e['kind'], e['expect'], o['got']) for e, o in zip(obj.get('edits', []), obs['edits'])])
+        life = live_on(obj['schema'], obs['_inst'], [(x['m'], True, True) for x in obj.get('lives', [])])
+        for x in life:
+            print('life: %s path %s field %d -> announced %d, encoded %d %s' % (x['m']['op'], x['m']['path'], x['m']['i'], x['alen'], x['wlen'], x['enc'] or x['proj']))
         rec = dict(id=1, cname=obj['cname'], schema=obj['schema'], decl={'cname': '', 'entries': []}, v=obj['v'], alen=obs['alen'], wlen=obs['wlen'],
-                   tree=obs['tree'], back=obs['back'], eq=obs['eq'],
+                   tree=obs['tree'], back=obs['back'], eq=obs['eq'], life=life,
                    edits=[{k: o[k] for k in ('path', 'op', 'pos', 'src', 'elem', 'kind', 'got', 'gv')} for o in obs['edits']])
     elif obj.get('kind') == 'record':
         rec = dict(obj['rec'], id=1)
@@ -790,14 +979,19 @@ def replay(ctx, path):
         else:
             cls = kit.build_decl(rec['decl']) if rec['decl']['entries'] else kit.build_schema_class(rec['schema'])
         obs = observe(rec['schema'], cls, rec['v'], rec['edits'])
+        rec['life'] = live_on(rec['schema'], obs['_inst'], [(x['m'], x['sized'] or bool(x['enc']), x['encoded'] or bool(x['enc']))
+                                                            for x in rec.get('life', [])])
+        for x in rec['life']:
+            print('life: %s path %s field %d -> announced %d, encoded %d %s' % (x['m']['op'], x['m']['path'], x['m']['i'], x['alen'], x['wlen'], x['enc'] or x['proj']))
         rec.update(alen=obs['alen'], wlen=obs['wlen'], tree=obs['tree'], back=obs['back'], eq=obs['eq'],
                    edits=[{k: o[k] for k in ('path', 'op', 'pos', 'src', 'elem', 'kind', 'got', 'gv')} for o in obs['edits']])
         print(json.dumps({k: obs[k] for k in ('alen', 'wlen', 'enc', 'proj', 'eq')}), [(o['kind'], o['got']) for o in obs['edits']])
     else:
         print(json.dumps(obj, indent=1)[:3000])
         return 0
-    rec = {k: v for k, v in rec.items() if k in ('id', 'cname', 'schema', 'decl', 'v', 'alen', 'wlen', 'tree', 'back', 'eq', 'edits', 'views')}
+    rec = {k: v for k, v in rec.items() if k in ('id', 'cname', 'schema', 'decl', 'v', 'alen', 'wlen', 'tree', 'back', 'eq', 'edits', 'views', 'life')}
     rec.setdefault('views', [])
+    rec.setdefault('life', [])
     verdicts = judge(ctx, [rec], 'c08-replay')
     print('judge:', verdicts.get(1, 'conforms'))
     return 1 if verdicts else 0
